@@ -339,6 +339,12 @@ theorem Ast.child_sub {n c : PTree} {p : SyntaxKind → Bool} (h : Ast.child n p
   simp only [Bool.and_eq_true] at hp
   exact ⟨by simpa using hm, hp.1⟩
 
+theorem Ast.child_is_kind {n c : PTree} {k : SyntaxKind} (h : Ast.child n (Ast.is k) = some c) : c.kind = k := by
+  unfold Ast.child at h
+  have hp := Array.find?_some h
+  simp only [Bool.and_eq_true] at hp
+  simpa [Ast.is] using hp.2
+
 theorem Ast.children_sub {n c : PTree} {p : SyntaxKind → Bool} (h : c ∈ Ast.children n p) : Sub n c := by
   unfold Ast.children at h
   simp only [Array.toList_filter, List.mem_filter, Bool.and_eq_true] at h
